@@ -24,17 +24,17 @@ pub fn run_seed(seed: u64, prop: &str, tier: Tier, index: u64) -> u64 {
 /// number of runs per property and tier (fixed: the batch never depends on speed or worker count)
 pub fn run_count(prop: &str, tier: Tier) -> u64 {
     let (q, t) = match prop {
-        "C01" => (1400, 14000),
-        "C02" => (2400, 24000),
-        "C03" => (2400, 24000),
-        "C10" => (2400, 24000),
-        "C11" => (3000, 30000),
-        "C12" => (2400, 24000),
-        "C13" => (3000, 30000),
-        "C14" => (1600, 16000),
-        "C17" => (2000, 20000),
-        "C18" => (3000, 30000),
-        "C20" => (2000, 20000),
+        "C01" => (3000, 30000),
+        "C02" => (12000, 120000),
+        "C03" => (10000, 100000),
+        "C10" => (9000, 90000),
+        "C11" => (16000, 160000),
+        "C12" => (16000, 160000),
+        "C13" => (12000, 120000),
+        "C14" => (1400, 14000),
+        "C17" => (10000, 100000),
+        "C18" => (14000, 140000),
+        "C20" => (16000, 160000),
         "SELFTEST" => (64, 256),
         _ => (100, 1000),
     };
@@ -72,12 +72,18 @@ impl Default for WorldOpts {
 
 /// productive-by-construction random CFG: every non-terminal's first alternative is terminal-only,
 /// every terminal is a non-empty literal or class.
-pub fn random_cfg(rng: &mut Rng) -> String {
+pub fn random_cfg(rng: &mut Rng, swallowing: bool) -> String {
     let n_nt = rng.range(2, 5);
     let lits = [
         "a", "b", "c", "ab", "ba", "(", ")", "[", "]", ",", ";", "x", "xy", "0", "1", " ", "=", "if", "fi",
     ];
-    let terms = ["/[a-c]+/", "/[0-9]{1,3}/", "/x*y/", "/[a-z][0-9]?/", "/(ab)+/"];
+    // self-delimiting terminals mostly; "swallowing" ones (a following identical lexeme can never
+    // start: bytes are then forced for ever, see F4) stay in with a low weight
+    let terms = if swallowing {
+        vec!["/[a-c]+/", "/[0-9]{1,3}/", "/x*y/", "/[a-z][0-9]?/", "/(ab)+/"]
+    } else {
+        vec!["/[0-9]{1,3}/", "/x*y/", "/[a-z][0-9]?/", "/\\+\\+?/", "/[A-C]{2}/"]
+    };
     let n_t = rng.range(1, 3);
     let mut out = String::from("start: n0\n");
     for i in 0..n_nt {
@@ -171,7 +177,7 @@ pub fn tight_limits(rng: &mut Rng) -> LimitsSpec {
 pub fn gen_world(rng: &mut Rng, o: &WorldOpts) -> (WorldSpec, bool) {
     let use_rand = o.allow_random_cfg && o.want_tags.iter().all(|t| *t == "prod") && rng.chance(0.2);
     let (gid, gkind, gtext0, _tokref) = if use_rand {
-        ("rand_cfg".to_string(), GKind::Lark, random_cfg(rng), false)
+        ("rand_cfg".to_string(), GKind::Lark, random_cfg(rng, o.tight_limits), false)
     } else {
         let e = pick_entry(rng, o);
         (e.id.to_string(), e.kind, e.text.to_string(), e.has("tokref"))
@@ -1331,9 +1337,10 @@ pub fn gen_stop_ctrl(rng: &mut Rng, seed: u64, index: u64, long: bool, prop: &st
         }
         // nothing is returned once stopped
         for _ in 0..2 {
+            // (not NUL: text containing NUL cannot travel through the C string interface)
             ops.push(Op::StopCommit {
                 h: c,
-                tok: rng.below(200) as u32,
+                tok: 32 + rng.below(90) as u32,
             });
         }
         ops.push(Op::ChkStop { h: c });
